@@ -769,6 +769,26 @@ theorem compute_weights_schedule_source_eq_model (len : Nat) (nl : NLive) :
         · obtain ⟨m, rfl⟩ : ∃ m, n = m + 2 := ⟨n - 2, by omega⟩
           simp [countdown, hn1]
 
+theorem finalise_loop_from {α : Type} (shrink : Nat → K) (n : Nat) (live : List (α × K)) (k : Nat) (s : St K) (nested : List α) :
+    (live.zipIdx k).foldl (fun (acc : St K × List α) (ip : (α × K) × Nat) =>
+        ((acc.1.increment shrink ip.1.2 (some (n - ip.2))), (acc.2 ++ [ip.1.1]))) (s, nested)
+      = (finaliseLoopFrom shrink n k s (live.map (·.2)), nested ++ live.map (·.1)) := by
+  induction live generalizing k s nested with
+  | nil => simp [finaliseLoopFrom]
+  | cons p ps ih =>
+    simp only [List.zipIdx_cons, List.foldl_cons, List.map_cons, finaliseLoopFrom]
+    rw [ih (k + 1)]
+    simp [List.append_assoc]
+
+/-- **the hand-over loop of `NestedSampler.finalise`, generated from the source, is the model's `finaliseLoopFrom`**: the integral
+state sees the live points' likelihoods in order with live counts `nlive, nlive − 1, …`, and the points are appended to the nested
+samples in that order (the loop C05's count and order theorems and `state_eq_compute_weights` are about) -/
+theorem finalise_loop_source_eq_model {α : Type} (shrink : Nat → K) (n : Nat) (s : St K) (nested : List α) (live : List (α × K)) :
+    Gen.Trapezoid.finalise_loop shrink n s nested live
+      = (finaliseLoopFrom shrink n 0 s (live.map (·.2)), nested ++ live.map (·.1)) := by
+  unfold Gen.Trapezoid.finalise_loop
+  exact finalise_loop_from shrink n live 0 s nested
+
 example : Gen.Trapezoid.get_logx_live_points (fun x => x) (1 : ℚ) "T" 3 = none := by
   simp [Gen.Trapezoid.get_logx_live_points]
 
